@@ -146,3 +146,21 @@ def kernel_roles(ctx, I, ns, comp, rho, lam):
     if set(roles) != {"wavelength", "number_density", "b_c", "sigma_s"}:
         raise AnalysisError(f"cannot identify the arguments neutron_scattering passes to {kq}: {sorted(roles)} of {ksig}")
     return kq, roles
+
+
+def lookup_nodes(I, rec):
+    """(wavelength nodes, complex values) of an energy-dependent Neutron record, observed through the lookup the calculators
+    use - scattering_by_wavelength at a symbolic wavelength - whatever the initialiser stored; None when the scattering
+    length is not a single interpolation."""
+    from ptstat.symlib import interp_f
+    from ptstat.symval import SymRaise
+    lam = sp.Symbol("lam_probe", positive=True)
+    try:
+        bce, _ = I.call(I.getattr(rec, "scattering_by_wavelength"), [lam], {})
+    except SymRaise:
+        return None
+    e = sp.sympify(bce)
+    apps = [a for a in e.atoms(sp.Function) if a.func == interp_f]
+    if len(apps) != 1 or e != apps[0] or apps[0].args[0] != lam:
+        return None
+    return list(apps[0].args[1].args), list(apps[0].args[2].args)
